@@ -3,7 +3,7 @@ from __future__ import annotations
 
 from ..core import Report
 from ..frontend import Repo
-from .common_own import rule_ownership, rule_wrapper_release, rule_refcount_outputs
+from .common_own import rule_ownership, rule_wrapper_release, rule_refcount_outputs, rule_refcount_not_self_held
 
 
 def check(repo: Repo, rep: Report) -> None:
@@ -23,3 +23,4 @@ def check(repo: Repo, rep: Report) -> None:
     rule_wrapper_release(repo, rep)
     rule_ownership(repo, rep)
     rule_refcount_outputs(repo, rep)
+    rule_refcount_not_self_held(repo, rep)
